@@ -15,6 +15,9 @@ pub(crate) mod u6x {
     use std::panic::{AssertUnwindSafe, catch_unwind};
 
     const SHARED_HAS_DROP: bool = __SHARED_HAS_DROP__;
+    /// false while Value::deep_copy reads arrays through get_struct (C08 defect): ChannelRead of a
+    /// value that contains an array is then outside this unit
+    const DEEPCOPY_ARRAY_OK: bool = __DEEPCOPY_ARRAY_OK__;
 
     // ------------------------------------------------------------------ odometer
     pub struct Odo {
@@ -61,6 +64,11 @@ pub(crate) mod u6x {
         Struct1,
         Array0,
         Struct0,
+        /// channel with its own queue of 0..=2 values
+        Chan,
+        /// channel object sharing the queue of an earlier channel of the world (what
+        /// ChannelObject::copy / deep_copy of a channel value creates)
+        ChanAlias,
     }
     pub struct Cfg {
         pub n: usize,
@@ -68,6 +76,7 @@ pub(crate) mod u6x {
         pub kinds: Vec<K>,
         pub with_static: bool,
         pub exact_n: bool,
+        pub kindset: String,
     }
     fn env_usize(k: &str, d: usize) -> usize {
         std::env::var(k).ok().and_then(|v| v.parse().ok()).unwrap_or(d)
@@ -75,12 +84,20 @@ pub(crate) mod u6x {
     pub fn cfg() -> Cfg {
         let all = [K::Struct2, K::Array1, K::Enum, K::Array2, K::Str, K::Struct1, K::Array0, K::Struct0];
         let nk = env_usize("U6X_KINDS", 5).min(all.len());
+        let kindset = std::env::var("U6X_KINDSET").unwrap_or_default();
+        let kinds: Vec<K> = match kindset.as_str() {
+            // dedicated channel shapes (one thread; every queued pointer points into this heap)
+            "chan" => vec![K::Chan, K::Array1, K::Enum, K::Str, K::Struct1],
+            "chanalias" => vec![K::Chan, K::ChanAlias, K::Array1, K::Enum],
+            _ => all[..nk].to_vec(),
+        };
         Cfg {
             n: env_usize("U6X_N", 2),
             s: env_usize("U6X_S", 2),
-            kinds: all[..nk].to_vec(),
+            kinds,
             with_static: env_usize("U6X_STATIC", 0) != 0,
             exact_n: env_usize("U6X_EXACT_N", 0) != 0,
+            kindset,
         }
     }
 
@@ -120,6 +137,7 @@ pub(crate) mod u6x {
             K::Array0 => ArrayObject::new(vec![], t) as *mut ObjectHeader,
             K::Enum => EnumObject::new(3, z, t) as *mut ObjectHeader,
             K::Str => StringObject::new(String::from("a"), t) as *mut ObjectHeader,
+            K::Chan | K::ChanAlias => ChannelObject::new(t) as *mut ObjectHeader,
         }
     }
     pub const SCALAR: AbraInt = 7;
@@ -162,8 +180,19 @@ pub(crate) mod u6x {
         let stat: *mut ObjectHeader =
             if c.with_static { t.shared.static_strings[0] as *mut ObjectHeader } else { std::ptr::null_mut() };
         let mut w = W { t: None, objs: vec![], stat };
-        for k in &kinds {
-            let h = mk_obj(*k, &mut t);
+        for (i, k) in kinds.iter().enumerate() {
+            let h = if *k == K::ChanAlias {
+                // share the queue of an earlier channel (real ChannelObject::new_with_data, as copy() does)
+                let owners: Vec<usize> = (0..i).filter(|j| kinds[*j] == K::Chan).collect();
+                if owners.is_empty() {
+                    return None;
+                }
+                let j = owners[o.pick(owners.len())];
+                let data = unsafe { (&*(w.objs[j] as *const ChannelObject)).data.clone() };
+                ChannelObject::new_with_data(&mut t, data) as *mut ObjectHeader
+            } else {
+                mk_obj(*k, &mut t)
+            };
             w.objs.push(h);
         }
         w.t = Some(t);
@@ -204,11 +233,25 @@ pub(crate) mod u6x {
         // fields, object by object
         let nc = nchoices(&w);
         for i in 0..n {
-            let k = fields(w.objs[i]).len();
-            for f in 0..k {
-                let v = val_choice(&w, o.pick(nc));
-                set_field(w.objs[i], f, v);
+            if kinds[i] == K::Chan {
+                let q = o.pick(3);
+                for _ in 0..q {
+                    let v = val_choice(&w, o.pick(nc));
+                    unsafe { (&*(w.objs[i] as *const ChannelObject)).write_value(v) };
+                }
+            } else if kinds[i] != K::ChanAlias {
+                let k = fields(w.objs[i]).len();
+                for f in 0..k {
+                    let v = val_choice(&w, o.pick(nc));
+                    set_field(w.objs[i], f, v);
+                }
             }
+            if !obj_ok(w.tr(), i) {
+                return None;
+            }
+        }
+        // an alias was checked against a queue that may have been filled after it: check again
+        for i in 0..n {
             if !obj_ok(w.tr(), i) {
                 return None;
             }
@@ -282,7 +325,7 @@ pub(crate) mod u6x {
             } else {
                 "marked"
             };
-            let fs: Vec<String> = fields(h).iter().map(|v| vname(w, v)).collect();
+            let fs: Vec<String> = children(h).iter().map(|v| vname(w, v)).collect();
             s += &format!("{}:{}:{}({}) ", name, kind, col, fs.join(","));
         }
         let freed: Vec<String> = w
@@ -344,7 +387,7 @@ pub(crate) mod u6x {
             name,
             c.n,
             c.s,
-            c.kinds.len(),
+            if c.kindset.is_empty() { c.kinds.len().to_string() } else { c.kindset.clone() },
             c.with_static as u8,
             st.worlds,
             st.ran,
@@ -409,7 +452,7 @@ pub(crate) mod u6x {
             }
         }
         while let Some(i) = work.pop() {
-            for v in fields(w.objs[i]) {
+            for v in &children(w.objs[i]) {
                 if let Some(j) = obj_index(w, v) {
                     if !reach[j] {
                         reach[j] = true;
@@ -420,7 +463,7 @@ pub(crate) mod u6x {
         }
         Snap {
             reach,
-            flds: w.objs.iter().map(|&h| fields(h).to_vec()).collect(),
+            flds: w.objs.iter().map(|&h| children(h)).collect(),
             stack: t.value_stack.clone(),
             ops: (t.string_operand1, t.string_operand2),
             premarked: w.objs.iter().map(|&h| marked(t, h)).collect(),
@@ -437,7 +480,7 @@ pub(crate) mod u6x {
             if s.reach[i] {
                 if pos(t, w.objs[i]) >= t.heap_list.len() {
                     fails.push("freed_reachable");
-                } else if fields(w.objs[i]) != &s.flds[i][..] {
+                } else if children(w.objs[i]) != s.flds[i] {
                     fails.push("view_changed");
                 }
             }
@@ -941,5 +984,112 @@ pub(crate) mod u6x {
             t.push_str(String::from("b"));
             true
         })));
+    }
+
+    // ------------------------------------------------------------------ channels (one thread)
+    /// Value::deep_copy terminates and stays inside this unit: no cycle below `v`, and no array
+    /// while deep_copy still reads arrays through get_struct (C08)
+    fn copyable(w: &W, v: &Value, path: &mut Vec<usize>) -> bool {
+        let Some(i) = obj_index(w, v) else {
+            return true;
+        };
+        if path.contains(&i) {
+            return false;
+        }
+        match v.1 {
+            ValueTag::Channel | ValueTag::String => true,
+            ValueTag::Array if !DEEPCOPY_ARRAY_OK => false,
+            _ => {
+                path.push(i);
+                let ok = children(w.objs[i]).iter().all(|c| copyable(w, c, path));
+                path.pop();
+                ok
+            }
+        }
+    }
+    #[test]
+    fn x_arm_ConstructChannel() {
+        arm("ConstructChannel", &ALL, &|_w, _o| Some(Box::new(move |t| t.arm_ConstructChannel())));
+    }
+    #[test]
+    fn x_arm_ChannelWrite() {
+        enumerate("ChannelWrite", &ALL, &|w, _o| {
+            let len = w.tr().value_stack.len();
+            if len < 2 || w.tr().value_stack[len - 2].1 != ValueTag::Channel {
+                return None;
+            }
+            let val = w.tr().value_stack[len - 1];
+            let ch = w.tr().value_stack[len - 2].0 as *mut ObjectHeader;
+            let q0 = children(ch);
+            let pre: Vec<*mut ObjectHeader> = w.tr().heap_list.clone();
+            let ok = guarded(|| {
+                w.t().arm_ChannelWrite();
+            });
+            let mut f = vec![];
+            let t = w.tr();
+            if ok {
+                let q1 = children(ch);
+                if q1.len() != q0.len() + 1 || q1[..q0.len()] != q0[..] || q1[q0.len()] != val || t.value_stack.len() != len - 2 {
+                    f.push("post");
+                }
+            }
+            if pre.iter().any(|&h| pos(t, h) >= t.heap_list.len()) {
+                f.push("post");
+            }
+            finish(w, ok, f)
+        });
+    }
+    #[test]
+    fn x_arm_ChannelRead() {
+        enumerate("ChannelRead", &ALL, &|w, _o| {
+            let len = w.tr().value_stack.len();
+            if len < 1 || w.tr().value_stack[len - 1].1 != ValueTag::Channel {
+                return None;
+            }
+            let ch = w.tr().value_stack[len - 1].0 as *mut ObjectHeader;
+            let q0 = children(ch);
+            if let Some(head) = q0.first() {
+                if !copyable(w, head, &mut vec![]) {
+                    return None;
+                }
+            }
+            let pre: Vec<*mut ObjectHeader> = w.tr().heap_list.clone();
+            let stack0 = w.tr().value_stack.clone();
+            let s = snap(w);
+            let state_idle = w.tr().gc_state == GcState::Idle;
+            let state_marking = w.tr().gc_state == GcState::Marking;
+            let pc0 = w.tr().pc.0;
+            let ok = guarded(|| {
+                w.t().arm_ChannelRead();
+            });
+            let mut f = vec![];
+            let t = w.tr();
+            if ok {
+                if q0.is_empty() {
+                    // nothing to read: the instruction is retried, nothing else changes
+                    if t.value_stack != stack0 || t.heap_list != pre || t.pc.0 + 1 != pc0 {
+                        f.push("post");
+                    }
+                    post_gc(w, &s, &mut f);
+                } else {
+                    if children(ch) != q0[1..].to_vec() || t.value_stack.len() != len {
+                        f.push("post");
+                    }
+                    // the copy is made of NEW objects, born with the colour of the collector state
+                    for &h in &t.heap_list {
+                        if !pre.contains(&h) {
+                            let m = marked(t, h);
+                            if m == state_idle || (state_marking && !on_gray(t, h)) {
+                                f.push("born_colour");
+                            }
+                        }
+                    }
+                }
+            }
+            if pre.iter().any(|&h| pos(t, h) >= t.heap_list.len()) {
+                f.push("post");
+            }
+            finish(w, ok, f)
+        });
     }
 }
